@@ -3589,3 +3589,34 @@ def r03_15(ctx):
                 "sent from 0.0.0.0 (which the ingress path lets through for DHCP) makes the renewal at T1 a unicast to 0.0.0.0, and Interface::poll panics on dispatch_ip's assertion", body=b, bb=bad[0][0], path=bad[0][1])
     else:
         ctx.ok(('dhcpv4::process', 'server address unicast'), sample=dict(field='ServerInfo.address', guard='src_ip.x_is_unicast()'))
+
+
+@rule('R18.13', ['C18', 'C10'], floor=1, clause='the leased address is a unicast address of the subnet the ACK announces: parse_ack answers Some only after comparing your_ip with the broadcast address of (your_ip, subnet mask) - is_unicast() alone cannot know a subnet-directed broadcast address')
+def r18_13(ctx):
+    F = ctx.F
+    D = 'socket::dhcpv4::Socket'
+    b = ctx.method(D, 'parse_ack')
+    sites = [bi for bi, si, var in agg_sites(b, 'std::option::Option', ['Some']) if b.locals[b.blocks[bi]['s'][si][1][0]]['ty'].startswith('std::option::Option<(')]
+    ctx.need(sites, "Some(..) answer of parse_ack")
+
+    def notbc(f):
+        nodes = [x for x in f[1:] if isinstance(x, tuple) and x and isinstance(x[0], str)]
+        has_bc = any(c[1].endswith('Cidr::broadcast') for n_ in nodes for c in _calls_in(simplify(n_)))
+        yours = any(l.endswith('Repr.your_ip') for n_ in nodes for l in leafs(n_))
+        if not (has_bc and yours):
+            return False
+        if f[0] == 'rel':
+            return f[1] == 'Ne'
+        if f[0] == 'bool':
+            c = strip(f[1])
+            neg = c[0] == 'call' and c[1].rsplit('::', 1)[-1] == 'ne'
+            return (f[2] is False and not neg) or (f[2] is True and neg)
+        if f[0] in ('is', 'isnot'):
+            return True
+        return False
+    bad = unguarded(F, b, sites, notbc)
+    if bad:
+        ctx.bad("parse_ack|subnet-broadcast-lease", "parse_ack accepts your_ip without comparing it with the broadcast address of the announced subnet: an ACK assigning 192.168.1.255 with mask "
+                "255.255.255.0 is reported as a configuration, and the client then renews with that broadcast address as IP source", body=b, bb=bad[0][0], path=bad[0][1])
+    else:
+        ctx.ok(('parse_ack', 'not the subnet broadcast'), sample=dict(fn='parse_ack', guard='Ipv4Cidr::new(your_ip, prefix).broadcast() != Some(your_ip)'))
